@@ -34,13 +34,17 @@ PROPS = {
             "sections": [dict(hist("hist", ["apply", "sort", "eval"]), cover_ops=None)],
             "rule": "every step of every generated history re-observes all earlier family members (digest of the full observation); "
                     "evaluations = observations compared; non-trivial = successful operation on a result with >= 2 rows; distinct by (operation, result)"},
-    "C02": {"lean": ["QF.Props.C02"], "sections": [hist("hist", ["filter"])]},
+    "C02": {"lean": ["QF.Props.C02"],
+            "sections": [hist("hist", ["filter"]),
+                         {"section": "hist", "tag": "hist-filter", "opt": "ops=filter+filter+filter+filter+sort+slice+distinct", "quick": 400, "thorough": 4000, "cover_ops": {"filter"}}]},
     "C03": {"lean": ["QF.Props.C03"], "sections": [hist("hist", ["sort"])]},
     "C04": {"lean": ["QF.Props.C04"], "sections": [hist("hist", ["groupagg", "groupframes"])]},
     "C05": {"lean": ["QF.Props.C04"], "extra_ns": ["QF.Props.C04"], "sections": [hist("hist", ["distinct"])]},
     "C06": {"lean": ["QF.Props.C06"], "sections": [hist("hist", ["apply", "fapply", "rownums"])]},
     "C07": {"lean": ["QF.Props.C06"], "extra_ns": ["QF.Props.C06"], "sections": [hist("hist", ["eval"])]},
-    "C08": {"lean": ["QF.Props.C08"], "sections": [hist("hist", ["select", "drop", "slice", "copy"], cover=["new", "select", "drop", "slice", "copy"])]},
+    "C08": {"lean": ["QF.Props.C08"],
+            "sections": [hist("hist", ["select", "drop", "slice", "copy"], cover=["new", "select", "drop", "slice", "copy"]),
+                         {"section": "hist", "tag": "hist-new", "opt": "newonly=1", "quick": 150, "thorough": 1500, "cover_ops": {"new"}}]},
     "C09": {"lean": ["QF.Props.C06"], "extra_ns": ["QF.Props.C06"], "sections": [hist("hist", ["equals"])]},
     "C12": {"lean": ["QF.Props.C12"],
             "sections": [{"section": "csvraw", "quick": 300, "thorough": 3000, "cover_ops": {"C"}},
